@@ -51,6 +51,42 @@ def run(cmd, timeout, mem_gb=8, cwd=None, stdout_path=None):
         return -9, '', f'timeout after {timeout}s', time.time() - t0
 
 
+def run_portfolio(cmd, timeout, mem_gb, outp):
+    """MiniSat and CaDiCaL race on the same goto binary; the first verdict wins (both are complete SAT back ends of cbmc)"""
+    t0 = time.time()
+    procs = []
+    for sv in ('minisat', 'cadical'):
+        c = cmd if sv == 'minisat' else cmd[:1] + ['--sat-solver', sv] + cmd[1:]
+        fo = open(outp + '.' + sv, 'w')
+        procs.append((sv, c, subprocess.Popen(c, stdout=fo, stderr=subprocess.DEVNULL, preexec_fn=_limits(mem_gb)), fo))
+    winner = None
+    while time.time() - t0 < timeout and winner is None:
+        alive = 0
+        for sv, c, p, fo in procs:
+            r = p.poll()
+            if r is None:
+                alive += 1
+            elif r in (0, 10) and winner is None:      # 0 = successful, 10 = failed properties: both are verdicts
+                winner = (sv, c, r)
+        if alive == 0:
+            break
+        if winner is None:
+            time.sleep(0.2)
+    for sv, c, p, fo in procs:
+        if p.poll() is None:
+            p.kill()
+        p.wait()
+        fo.close()
+    if winner is None:
+        if time.time() - t0 >= timeout:
+            return -9, time.time() - t0, cmd
+        # both ended without verdict (memory limit / crash): hand back the first output for diagnosis
+        shutil.copy(outp + '.minisat', outp)
+        return 1, time.time() - t0, cmd
+    shutil.copy(outp + '.' + winner[0], outp)
+    return winner[2], time.time() - t0, winner[1]
+
+
 class Unit:
     def __init__(self, name):
         self.name = name
@@ -151,7 +187,14 @@ class Unit:
         gb = self.build_proof(proof, extra_defs)
         cmd = self.cbmc_cmd(proof, gb, extra_flags)
         outp = os.path.join(self.work, f"{proof['name']}{tag}.cbmc.json")
-        rc, out, err, dt = run(cmd, proof.get('timeout', 600), mem_gb=proof.get('mem_gb', 8), stdout_path=outp)
+        solver = proof.get('solver', 'minisat')
+        if solver == 'portfolio':
+            rc, dt, cmd = run_portfolio(cmd, proof.get('timeout', 600), proof.get('mem_gb', 8), outp)
+            err = ''
+        else:
+            if solver != 'minisat':
+                cmd = cmd[:1] + ['--sat-solver', solver] + cmd[1:]
+            rc, out, err, dt = run(cmd, proof.get('timeout', 600), mem_gb=proof.get('mem_gb', 8), stdout_path=outp)
         if rc == -9:
             raise Undecided(f"unit {self.name}/{proof['name']}: solver timeout after {proof.get('timeout', 600)}s")
         try:
